@@ -556,9 +556,13 @@ class C02(Config):
     release_too = False
     n_tags = 48
     shard_size = 100
+    harness_timeout = 7200
     classes = {}
     rule = ("every write operation reachable through the public API (WalletWrite, OutputLockStore, WalletCommitmentTrees on "
-            "WalletDb; PoolMigrations store writes) on two database states reached by a generated wallet history; per "
+            "WalletDb; PoolMigrations store writes incl. store_proved_transaction / take_transaction_for_broadcast on a really "
+            "proved transaction) on database states reached by a generated wallet history (plain; with locks, stored "
+            "transactions and a pending migration; with a completed migration mined above the truncation heights; the same plus "
+            "a successor migration; around a proved migration transaction); per "
             "operation: uninterrupted runs (rollback-journal and WAL), a fault at sampled SQLite VM steps up to the commit "
             "point in three pager configurations, a vetoed commit, live dumps through a second connection, a two-statement "
             "read on a second connection inside/outside a read transaction; every line is one executed API call with its hook "
@@ -569,7 +573,8 @@ class C02(Config):
         "SQLite 3 (bundled by rusqlite): atomic commit, rollback, hot-journal / WAL recovery, isolation between connections, "
         "statement atomicity — modelled by `step` in coq/C02/Model.v and *tested* (run_case) on every observed trace, not proved",
         "the operating system and file system (fsync, rename, file copies as crash images)",
-        "rusqlite hooks (commit/rollback/update hook, progress handler) and sqlite3_get_autocommit as the source of the event trace",
+        "rusqlite hooks (commit/rollback/update hook, progress handler), sqlite3_get_autocommit and SQLite's error log "
+        "(SQLITE_CONFIG_LOG: 'statement aborts' / 'abort at') as the source of the event trace",
         "vlib/props/c02.py shape extractor (comment/string blanking, brace matching, statement splitting) and the hand-justified entries bound to body hashes",
         "harness/wallet/src/bin/c02.rs (canonical dump: all tables of sqlite_master, rows sorted, uuid columns blanked, SHA-256 truncated to 63 bits); harness/hist",
     ]
@@ -577,12 +582,14 @@ class C02(Config):
         "one writer connection per wallet database at a time (the wallet's documented usage); a second connection only reads",
         "a fault is an error delivered inside a running SQL statement before the operation's commit point (SQLITE_INTERRUPT) or a failing COMMIT; "
         "an error reported after COMMIT has taken effect is outside the property (acknowledgement loss)",
-        "dump digests are compared by equality (63-bit truncated SHA-256)",
+        "dump digests are compared by equality (63-bit truncated SHA-256); uuid columns are blanked and transactions.raw is "
+        "compared by txid and length (PCZT extraction draws fresh signature randomness)",
     ]
     partial_clauses = [
         "atomic commit, isolation and crash recovery are properties of SQLite and the OS: trusted, exercised by file-copy crash images (at fault time and inside the commit hook, incl. cache-spill configurations with a hot journal), not proved",
         "fault positions, crash points and reader schedules are sampled (quick: ~14 positions per operation and state; thorough: ~120), not exhaustive",
-        "store_proved_transaction / take_transaction_for_broadcast (need a proved PCZT) are covered by the shape table only, not by fault injection",
+        "store_proved_transaction / take_transaction_for_broadcast are driven with ONE really proved preparation transaction of one planned migration (single-note wallet); transfers (Ironwood crossings) are not proved",
+        "the list of discarded database results (C02_no_discarded_db_result) is a syntactic scan: a Result discarded through a helper, a closure or a differently spelled pattern is not seen",
         "the bracket discipline of the method bodies *below* the trait methods (helpers called inside the closure) is checked dynamically (traces), not statically",
     ]
 
